@@ -56,6 +56,13 @@ def cases(rng, tier):
             qs += ["vbf800000", "a80000000", "vff800000"]
         rng.shuffle(qs)
         yield ("traj %s %s %s" % (mode, hexs(G.encode(tr)), ",".join(qs)), "gen-" + mode)
+        if i % 4 == 1 and len(keep) >= 3:
+            # the same instant again after calls that move the player on their own (the duration query leaves it
+            # beyond the end): whatever is remembered per instant must not outlive them
+            a, b, c = keep[0], keep[1], keep[2]
+            qs = ["v" + fhex(a), "d00000000", "v" + fhex(a), "a" + fhex(a), "p" + fhex(b), "d00000000", "a" + fhex(b), "v" + fhex(b),
+                  "v" + fhex(end + 1.0), "d00000000", "v" + fhex(end + 1.0), "a" + fhex(c), "d00000000", "p" + fhex(c), "v" + fhex(c)]
+            yield ("traj h %s %s" % (hexs(G.encode(tr)), ",".join(qs)), "same-instant-after-duration")
 
 
 def compare(case, om, oi):
